@@ -22,6 +22,7 @@ import (
 	"sync"
 	"sync/atomic"
 	"testing"
+	"time"
 
 	"github.com/ethereum/go-ethereum/common"
 	"github.com/gauss-project/aurorafs/pkg/addressbook"
@@ -523,8 +524,15 @@ func TestVerifC28(t *testing.T) {
 			}
 		}
 	}()
-	savedAlpha, savedTTL := NeighborAlpha, atomic.LoadInt32(&MaxTTL)
-	defer func() { NeighborAlpha = savedAlpha; atomic.StoreInt32(&MaxTTL, savedTTL) }()
+	savedAlpha, savedTTL, savedPT := NeighborAlpha, atomic.LoadInt32(&MaxTTL), PendingTimeout
+	defer func() { NeighborAlpha = savedAlpha; atomic.StoreInt32(&MaxTTL, savedTTL); PendingTimeout = savedPT }()
+	// The pending-table collectors run on a 500 ms ticker and forget entries older than
+	// PendingTimeout (5 s). An execution takes milliseconds, but a stalled process on a
+	// busy box must not turn into different protocol behaviour: the timeout is configured
+	// far beyond any execution (assumption "no pending GC during an execution").
+	PendingTimeout = time.Hour
+	var maxExec time.Duration
+	defer func() { t.Logf("longest single execution: %v", maxExec) }()
 
 	// State keys of the previous execution, indexed by step: consecutive DFS
 	// executions share a prefix, whose keys need not be recomputed.
@@ -536,6 +544,12 @@ func TestVerifC28(t *testing.T) {
 		"transitions": "deliver any in-flight onRouteReq/onRouteResp message to the real handler, or drop it (deviation)",
 		"step_cap":    stepCap}},
 		func(x *mc.X) {
+			t0 := time.Now()
+			defer func() {
+				if d := time.Since(t0); d > maxExec {
+					maxExec = d
+				}
+			}()
 			c0 := x.Choose(len(scen))
 			sc := scen[c0]
 			maxTTL := sc.maxTTL
